@@ -42,7 +42,8 @@ Empty == [scen |-> "", engine |-> "", srcs |-> {}, dsts |-> {}, feats |-> {},
 
 Init == l = 1 /\ st = Empty /\ viol = {}
 
-V(inv, what) == [inv |-> inv, at |-> Ev.n, scen |-> st.scen, what |-> what]
+\* what is rendered as a string: the records of one scenario form a set, and TLC cannot compare values of different types
+V(inv, what) == [inv |-> inv, at |-> Ev.n, scen |-> st.scen, what |-> ToString(what)]
 Add(cond, inv, what) == IF cond THEN {} ELSE {V(inv, what)}
 
 IsSrc(s) == s \in st.srcs
